@@ -4,11 +4,11 @@ CONFIG = {
     "technique": "Lean 4 proof of totality of fee arithmetic + regenerated fatal-path ledger checked by kernel evaluation",
     "models": [],
     "lean_sources": ["OasisModel/Handlers", "OasisProofs/Helpers/Fees.lean", "OasisModel/Staking", "OasisModel/Governance", "OasisModel/Quantity.lean"],
-    "extra_theorem_files": [{"file": "OasisProofs/Props/C10Sound.lean", "namespace": "OasisProofs.C10Sound"}],
     "regen": [{"kind": "fatalpaths", "out": "FatalPaths.lean"}, {"kind": "quantity", "out": "SharePoolGen.lean"}],
     "extra_theorem_files": [
         {"file": "OasisProofs/Props/C10Ledger.lean", "namespace": "OasisProofs.C10Ledger"},
         {"file": "OasisProofs/Props/C10Tally.lean", "namespace": "OasisProofs.C10Tally"},
+        {"file": "OasisProofs/Props/C10Sound.lean", "namespace": "OasisProofs.C10Sound"},
     ],
     "generated_obligations": 18,
     "drivers": [
